@@ -6,10 +6,14 @@ Ring 1: FM/Props/C04.lean — FENCE_SAFE (no content line can close the emitted 
 Ring 2: tie render, tie transform (smart quotes / ellipses / unbold applied to the Marko tree), shared scanners.
 Ring 3: one extractor applied to parse(x) and parse(fmt(x)) — code blocks, code spans, tags, comments, HTML, URLs,
         destinations/titles, labels — must give the same sequence for every option set (typography on and off).
+        Inputs: special documents, mdgen documents, span-stress sweep, and two families of their own: indented code
+        blocks with fence-like content (the only blocks whose fence the formatter chooses) and spans whose source is
+        laid out over several lines (tags are read over soft line breaks by the extractor).
 """
 from __future__ import annotations
 
 import json
+import random
 import re
 
 import mdast
@@ -29,6 +33,12 @@ CODE_DOCS = [
     "[l](http://x.org/it's_a \"T's ...\") ![i](http://u/... 'q') <http://a.b/c'd> www.x.org/it's\n\n[r]: http://r.org/... \"R's ... t\"\n",
     "```text\n\n```\n", "> ```\n>\n> ```\n", "- ```\n\n  ```\n", "```\n\n\n```\n", "~~~\n \n~~~\n",
     "1. ```\n   in list\n   ```\n2. x\n", "```\n{% tag %}\n- not a list\n| no | table |\n{% /tag %}\n```\n",
+    # indented code (the formatter chooses the fence) holding fence-like lines at every indentation a closing fence may have
+    "text\n\n    code\n     ```\n      ~~~~\n       `````\n        ``````\n    more\n\nafter\n", "- item\n\n      code\n         ```` x\n      more\n\n> q\n>\n>     a\n>       ```\n>     b\n",
+    "text\n\n\tcode\n\t ```\n\tmore\n\nafter\n",
+    # spans whose source is laid out over several lines
+    "text {% field label=\"a\"\nhint=\"Please wait... now\" %} and {# see above...\n  it's #} more <span\ntitle=\"so... 'x'\"> `a...\nb's` end\n",
+    "Intro text here.\n{% field label=\"Loading...\"\n   hint=\"wait... please\" %}\nBody text.\n\n- item {{ a...b |\n  f(\"it's\") }} and <!-- c...\n  d's \"q\" --> end\n",
 ]
 
 OPT_PRODUCT = [dict(width=w, semantic=s, cleanups=c, smartquotes=q, ellipses=e)
@@ -39,12 +49,28 @@ def extract(text: str) -> list:
     out: list = []
 
     def walk_inl(es):
-        for e in es:
+        run: list[str] | None = None        # raw text of the current run RawText (soft-break RawText)*
+
+        def flush():
+            nonlocal run
+            if run is not None:
+                # a tag is a tag wherever the source lines happen to end inside it: tags are looked for in the text of
+                # a run of RawText nodes joined over *soft* line breaks (any other inline element ends the run)
+                for m in TAG_RE.finditer("\n".join(run)):
+                    out.append(("tag", re.sub(r"\s+", " ", m.group(0))))
+            run = None
+
+        for j, e in enumerate(es):
             k = type(e).__name__
             if k == "RawText":
-                for m in TAG_RE.finditer(e.children):
-                    out.append(("tag", re.sub(r"\s+", " ", m.group(0))))
-            elif k == "CodeSpan":
+                if run is None:
+                    run = []
+                run.append(e.children)
+                continue
+            if k == "LineBreak" and getattr(e, "soft", False) and run is not None and j + 1 < len(es) and type(es[j + 1]).__name__ == "RawText":
+                continue
+            flush()
+            if k == "CodeSpan":
                 out.append(("codespan", re.sub(r"\s+", " ", e.children).strip()))
             elif k == "InlineHTML":
                 out.append(("html", re.sub(r"\s+", " ", e.children)))
@@ -57,6 +83,7 @@ def extract(text: str) -> list:
                 out.append(("fnref", e.label))
             elif isinstance(getattr(e, "children", None), list):
                 walk_inl(e.children)
+        flush()
 
     def walk(es):
         for e in es:
@@ -89,16 +116,17 @@ def extract(text: str) -> list:
     return out
 
 
-def oracle(ctx: Ctx, docs, label: str, full_product: bool) -> None:
+def oracle(ctx: Ctx, docs, label: str, full_product: bool, rng=None, pick=None) -> None:
+    """`pick(rng)` (optional) chooses the option sets of one document instead of 3 sampled points of the product"""
     from flowmark import reformat_text
-    rng = ctx.rng
+    rng = rng or ctx.rng
     for i, doc in enumerate(docs):
         try:
             a = extract(doc.strip() + "\n")
         except Exception as e:
             ctx.fail("parser raised on input", {"doc": doc}, repr(e))
             continue
-        opts = OPT_PRODUCT if full_product else rng.sample(OPT_PRODUCT, 3)
+        opts = OPT_PRODUCT if full_product else pick(rng) if pick else rng.sample(OPT_PRODUCT, 3)
         for o in opts:
             try:
                 out = reformat_text(doc, **o)
@@ -227,19 +255,130 @@ def span_stress(ctx: Ctx, n: int) -> None:
                 return
 
 
+# ---------------------------------------------------------------------------------------------------------------
+# family "indented code": an indented code block is the one place where the formatter has to *choose* a fence (a fenced
+# block keeps its own, which its content cannot close by construction), so "a fence is always long enough to contain its
+# content" is decided here.  Content lines are adversarial for that choice: runs of either fence character, of every
+# length, at every indentation a closing fence may have (0..3) and one it may not (4), bare or followed by text.
+
+def _fence_like(rng) -> str:
+    ch = rng.choice("``~")
+    return " " * rng.choice([0, 0, 1, 2, 3, 3, 4]) + ch * rng.choice([3, 3, 4, 5, 7]) + rng.choice(["", "", "", "py", " x", ch + " " + ch * 3])
+
+
+INDENTED_CONTAINERS = [("", ""), ("", ""), ("- ", "  "), ("1. ", "   "), ("> ", "> "), ("- > ", "  > "), ("> - ", ">   "), ("10. ", "    ")]
+
+
+def indented_code_docs(rng, n: int) -> list[str]:
+    plain = [l for l in mdgen.CODE_LINES if l.strip() and not l.startswith("\t")]
+    docs = []
+    for i in range(n):
+        first, rest = rng.choice(INDENTED_CONTAINERS)
+        k = rng.randint(1, 5)
+        body = [(_fence_like(rng) if rng.random() < 0.45 else rng.choice(plain)) for _ in range(k)]
+        if i % 3 == 0 and not any(l.lstrip(" ")[:3] in ("```", "~~~") for l in body):
+            body[rng.randrange(k)] = _fence_like(rng)
+        if k >= 2 and rng.random() < 0.3:
+            body.insert(rng.randint(1, k - 1), "")          # a blank line between two chunks belongs to the block
+        ind = "\t" if first == "" and rng.random() < 0.15 else "    "      # a tab is an indentation of four, too
+        lines = [first + "Example " + rng.choice(mdgen.WORDS) + ":", rest.rstrip()]
+        lines += [(rest + ind + l) if l else rest.rstrip() for l in body]
+        if rng.random() < 0.6:
+            lines += [rest.rstrip(), rest + "After " + rng.choice(mdgen.WORDS) + "."]
+        if rng.random() < 0.3:
+            lines += ["", "Closing paragraph."]
+        docs.append("\n".join(lines) + "\n")
+    return docs
+
+
+# ---------------------------------------------------------------------------------------------------------------
+# family "split spans": every kind of inline non-prose span whose *source* is laid out over two or three lines (the
+# break falls at whitespace inside the span, continuation lines optionally indented), holding what the typography passes
+# look for (dots after words, straight quotes, apostrophes), in every container, before/after/between prose, starting a
+# line or not.  The generated documents of mdgen keep each span on one source line; passes that see one source line at a
+# time and passes that see the paragraph as a whole differ exactly on these inputs.
+
+SPLIT_TOKENS = ["field", 'label="a"', 'hint="Please', "wait...", 'now"', "x='it's'", "note:", "above...", "and", "below...", "ok", '"Loading..."',
+                "a...b", "kind=string", "don't", '"q"...', "upper", "50%", "it's", "so...", '"yes"', "'no'...", "v", "see", "more"]
+SPLIT_DELIMS = [("{%", "%}", False), ("{%", "%}", False), ("{{", "}}", False), ("{#", "#}", False), ("<!--", "-->", False), ("{%", "%}", True), ("{{", "}}", True)]
+
+
+def _split_span(rng) -> list[str]:
+    """the tokens of one span; consecutive tokens are separated by whitespace that may be a line break"""
+    ws = [rng.choice(SPLIT_TOKENS) for _ in range(rng.randint(2, 6))]
+    if not any("..." in w for w in ws):
+        ws[rng.randrange(1, len(ws))] = rng.choice(["wait...", "above...", "so...", "a...b"])
+    r = rng.random()
+    if r < 0.55:
+        o, c, glued = rng.choice(SPLIT_DELIMS)
+        return [o + ws[0]] + ws[1:-1] + [ws[-1] + c] if glued else [o] + ws + [c]
+    if r < 0.7:
+        return ["`" + ws[0]] + ws[1:-1] + [ws[-1] + "`"]
+    if r < 0.85:
+        vals = [w.replace('"', "") for w in ws]
+        return ["<span", 'title="' + vals[0]] + vals[1:-1] + [vals[-1] + '"', "class='c'>"]
+    # link: the break may fall inside the link text or between destination and title, not inside the title (a line
+    # break inside a title comes out as a space, [t](http://u "a\nb") -> "a b"; titles are compared exactly, so that
+    # sub-case is left out here and reported separately)
+    vals = [w.replace('"', "") for w in ws[:3]]
+    return ["[the", "link](http://x.org/a_b?c=1", '"' + " ".join(vals) + '")']
+
+
+SPLIT_CONTAINERS = [("", ""), ("", ""), ("- ", "  "), ("1. ", "   "), ("> ", "> "), ("> - ", ">   "), ("- > ", "  > ")]
+
+
+def typography_square(rng) -> list[dict]:
+    """every smartquotes × ellipses combination (each pass alone, both, none) at one sampled width/semantic/cleanups"""
+    w, sem, c = rng.choice((0, 24, 88)), rng.random() < 0.5, rng.random() < 0.5
+    return [dict(width=w, semantic=sem, cleanups=c, smartquotes=q, ellipses=e) for q in (False, True) for e in (False, True)]
+
+
+def split_span_docs(rng, n: int) -> list[str]:
+    docs = []
+    for i in range(n):
+        first, rest = rng.choice(SPLIT_CONTAINERS)
+        toks: list[tuple[str, bool]] = []      # (token, may a line break precede it)
+        toks += [(w, False) for w in mdgen.words(rng, rng.randint(1, 6), quotes=(i % 2 == 0), ellipses=(i % 4 < 2))]
+        for s in range(rng.choice([1, 1, 2])):
+            span = _split_span(rng)
+            breaks = set(rng.sample(range(1, len(span)), min(len(span) - 1, rng.choice([1, 1, 2]))))
+            toks.append((span[0], rng.random() < 0.3))
+            toks += [(t, j in breaks) for j, t in enumerate(span) if j > 0]
+            toks += [(w, j == 0 and rng.random() < 0.3) for j, w in enumerate(mdgen.words(rng, rng.randint(1, 5), quotes=(i % 2 == 0), ellipses=(i % 4 < 2)))]
+        text = first
+        for j, (t, br) in enumerate(toks):
+            if j == 0:
+                text += t
+            elif br:
+                text += "\n" + rest + " " * rng.choice([0, 0, 0, 2, 3]) + t
+            else:
+                text += " " + t
+        docs.append(text + "\n")
+    return docs
+
+
 def run(ctx: Ctx) -> None:
     driver_ok = lean_obligations(ctx)
     replay_findings(ctx)
     if driver_ok:
-        ctx.guard("tie render", rendertie.tie_render, ctx.scale(150, 3000))
+        # the render model meets the fence choice of indented code blocks on the same family the oracle below uses
+        trng = random.Random(f"{ctx.prop}:tie-families:{ctx.seed}")
+        ctx.guard("tie render", rendertie.tie_render, ctx.scale(150, 3000), indented_code_docs(trng, ctx.scale(80, 1500)))
         ctx.guard("tie transform", tie_transform, ctx.scale(150, 3000))
     oracle(ctx, CODE_DOCS, "special", full_product=True)
+    # the two families below draw from their own stream, so the streams of the older families stay what they were
+    frng = random.Random(f"{ctx.prop}:families:{ctx.seed}")
+    oracle(ctx, indented_code_docs(frng, ctx.scale(120, 2500)), "indented-code", full_product=False, rng=frng)
+    oracle(ctx, split_span_docs(frng, ctx.scale(150, 3000)), "split-span", full_product=False, rng=frng, pick=typography_square)
     span_stress(ctx, ctx.scale(60, 1500))
     rng = ctx.rng
     docs = [mdgen.gen_document(rng, quotes=True, ellipses=True, tags=(i % 2 == 0), html=(i % 3 == 0), bold_headings=True) for i in range(ctx.scale(400, 6000))]
     oracle(ctx, docs, "generated", full_product=False)
     ctx.assume("Marko's parse is the reader on both sides; which strings are tags is TEMPLATE_TAG_PATTERN's business (scanner tie in C06/C08)")
     ctx.rule("special code/URL/tag documents × the full 48-point option product; generated documents × 3 sampled option sets; "
+             "indented code blocks with fence-like content lines (runs of ` and ~ of length 3..7 at indentation 0..4, in 7 containers) × 3 sampled "
+             "option sets; spans laid out over 2..3 source lines (tags, comments, inline HTML, code spans, link destination/title; dots and quotes "
+             "inside) × all 4 smartquotes/ellipses combinations at a sampled width/semantic/cleanups; "
              "non-trivial = the document has at least one non-prose span")
 
 
@@ -249,6 +388,8 @@ def search(ctx: Ctx) -> None:
         if doc:
             oracle(ctx, [doc], "from-broken-tie", full_product=True)
     rng = ctx.rng
+    oracle(ctx, indented_code_docs(rng, 1500), "search:indented-code", full_product=False)
+    oracle(ctx, split_span_docs(rng, 1500), "search:split-span", full_product=False, pick=typography_square)
     docs = [mdgen.gen_document(rng, quotes=True, ellipses=True, tags=True, html=True, bold_headings=True) for i in range(2500)]
     oracle(ctx, docs, "search", full_product=False)
 
